@@ -192,8 +192,12 @@ class Engine:
                 out.normal.append(nxt)
         elif isinstance(s, ast.Assert):
             self._expr_raises(s, state, out)
-            ok = self.a.branch(s.test, True, state)
-            bad = self.a.branch(s.test, False, state)
+            self.a.in_assert = True          # (an analysis may refuse to take an assert for a guard: `python -O` removes it)
+            try:
+                ok = self.a.branch(s.test, True, state)
+                bad = self.a.branch(s.test, False, state)
+            finally:
+                self.a.in_assert = False
             if bad is not None and hasattr(self.a, "assert_holds") and self.a.assert_holds(s, state):
                 bad = None          # an assertion of something the path already guarantees (a defensive no-op): it has no failing way out
                 if getattr(self.a, "IMPLIED_ASSERT_ADDS_NOTHING", False):
